@@ -53,7 +53,7 @@ def gen_case(rng):
         io['max_iters'] = int(gens.pick(rng, [50, 200]))         # heavy over-sifting: many components on short records
     xo = gens.ext_opts(rng)
     xp, _, tag = gens.present(rng, x, p_plain=.8)
-    if tag == 'strided':
+    if tag in gens.VIEWS:
         xp = np.asarray(x)
     c = {'kind': 'sift', 'family': kind, 'x': xp, 'imf_opts': io, 'envelope_opts': eo, 'extrema_opts': xo, 'presentation': tag}
     if rng.random() < .15:
@@ -106,8 +106,8 @@ def check_case(ctx, case):
     from emd import sift as S
     from emd.support import EMDSiftCovergeError
     xin = np.asarray(case['x'])
-    if case.get('presentation') == 'strided':
-        xin, _ = gens.relayout(None, xin, 'strided')
+    if case.get('presentation') in gens.VIEWS:
+        xin, _ = gens.relayout(None, xin, case['presentation'])
     x = np.asarray(xin, dtype=float)
     io, eo, xo = case['imf_opts'], case['envelope_opts'], case['extrema_opts']
     dig = digest(x, io, eo, xo)
@@ -118,7 +118,7 @@ def check_case(ctx, case):
         ctx.count('sifts_under_fast_clock')
     try:
         with probe, watchdog(case.get('watchdog', 30)), clock:
-            imf = S.sift(xin if case.get('presentation') == 'strided' else xin.copy(), imf_opts=dict(io), envelope_opts=dict(eo), extrema_opts=dict(xo))
+            imf = S.sift(xin if case.get('presentation') in gens.VIEWS else xin.copy(), imf_opts=dict(io), envelope_opts=dict(eo), extrema_opts=dict(xo))
     except WatchdogTimeout:
         ctx.count('watchdog')
         ctx.case(dig, False)
